@@ -4,11 +4,14 @@ import coqlit as L
 import conv
 
 COQ_IMPORTS = ['Model.TM', 'Judge.C11_judge']
+PDA_FREE = True      # no PDA is involved: the recycling pass runs with GambaTools.pda_epsilon_closure_max_iterations = 3
+LOG_SAFE = True      # no printed output is read back: the recycling pass runs with GambaTools.enable_logging = True
 RULE = ('all TMs with one working state over Gamma={a,blank} (169) and a seeded sample of those with two working states (17^4 space), plus random TMs with <= 4 working '
         'states over <= 3 tape symbols (partial delta, left moves at cell 0, blank writes, loops, halting initial state); each with all input words of length <= 3 (<= 2 for '
         '|Sigma|=2) and budgets {0,1,2,5,40}. Observed: tm_accepts_word, tm_simulate_word (every configuration), tm_words_up_to_n. '
         'Non-trivial = the runs of the machine show at least two of the three verdicts or a trace of length >= 4; distinct by machine text.')
-RULE += " Added after the seeded rounds: other blank symbols than '_', words containing tape symbols outside the input alphabet."
+RULE += (" Added after the seeded rounds: other blank symbols than '_', words containing tape symbols outside the input alphabet, "
+         "machines that erase a prefix of the input and come back over the blanks (words up to length 5).")
 CODES = {2: 'tm_accepts_word verdict differs from the proved model', 3: 'tm_simulate_word trace differs from the proved model',
          4: 'tm_words_up_to_n differs from the proved enumeration', 9: 'generated TM is not valid (harness)'}
 RESIDUE = 'Python list mutation of the tape (tape[head] = b, append) is modelled by set_nth / ++; Symbol/State are str'
@@ -16,7 +19,7 @@ ASSUMPTIONS = ['q_accept <> q_reject (class invariant asserted by TM._check_vali
 BUDGETS = [0, 1, 2, 5, 40]
 
 
-def _mk(states, sigma, gamma, delta, q0='q0'):
+def _mk(states, sigma, gamma, delta, q0='q0', words=None, budgets=None):
     Q = states + ['acc', 'rej']
     ws = []
     maxlen = 3 if len(sigma) <= 1 else 2
@@ -27,9 +30,37 @@ def _mk(states, sigma, gamma, delta, q0='q0'):
     extra = [g for g in gamma if g not in sigma]
     for g in extra[:2]:
         ws += [g] + [a + g for a in sigma[:1]]
-    runs = [[w, k] for w in ws for k in BUDGETS]
+    if words is not None:
+        ws = words
+    runs = [[w, k] for w in ws for k in (budgets or BUDGETS)]
     return {'Q': Q, 'Sigma': sigma, 'Gamma': gamma, 'delta': delta, 'q0': q0, 'qa': 'acc', 'qr': 'rej', 'blank': '_',
             'runs': runs, 'enum': [[0, 5], [2, 40], [3, 2]]}
+
+
+def eraser_tm(rng):
+    sigma = rng.choice([['a'], ['a', 'b']])
+    e = rng.randint(1, 3)
+    states = ['q%d' % i for i in range(e)] + ['s']
+    delta = []
+    for i in range(e):
+        last = i == e - 1
+        for x in sigma:
+            if rng.random() < 0.9:
+                delta.append(['q%d' % i, x, 's' if last else 'q%d' % (i + 1), '_', ('L' if rng.random() < 0.8 else 'R') if last else 'R'])
+    delta.append(['s', '_', 's', '_', 'R'])
+    for x in sigma:
+        r = rng.random()
+        if r < 0.5:
+            delta.append(['s', x, 'acc', x, 'R'])
+        elif r < 0.7:
+            delta.append(['s', x, 'rej', x, 'R'])
+        elif r < 0.85:
+            delta.append(['s', x, 's', '_', 'L'])          # erase it too and turn round
+    ws = set()
+    for n in range(e + 3):
+        for _ in range(3):
+            ws.add(''.join(rng.choice(sigma) for _ in range(n)))
+    return _mk(states, sigma, sigma + ['_'], delta, words=sorted(ws), budgets=[0, 2, e + 2, e + 4, 40])
 
 
 def _entries(states, gamma):
@@ -75,6 +106,10 @@ def gen(rng, tier):
         elif x < 0.08:
             q0 = 'rej'
         cases.append(_mk(states, sigma, gamma, delta, q0))
+    # machines that write blanks INSIDE the used part of the tape and come back over them: erase the first e cells, step back, skip the
+    # blanks to the right in one state, decide on the first symbol behind them (longer words than the other families use)
+    for _ in range(40 if tier == 'quick' else 600):
+        cases.append(eraser_tm(rng))
     # other blank symbols than '_' (the TM constructor and parse_tm accept any symbol; '□' is parse_tm's second default)
     out = []
     for i, c in enumerate(cases):
